@@ -29,18 +29,18 @@ def _build():
 def _run(args, timeout=600):
     exe, err = _build()
     if exe is None:
-        return {'found': False, 'how': 'replay crate failed to build against the current tree: ' + err}
+        return {'found': False, 'error': True, 'how': 'replay crate failed to build against the current tree: ' + err}
     try:
         p = subprocess.run([exe] + args, capture_output=True, text=True, timeout=timeout)
     except subprocess.TimeoutExpired:
-        return {'found': False, 'how': 'replay search timed out'}
+        return {'found': False, 'error': True, 'how': 'replay search timed out'}
     for line in reversed(p.stdout.strip().split('\n')):
         if line.startswith('{'):
             try:
                 return json.loads(line)
             except Exception:
                 pass
-    return {'found': False, 'how': 'replay produced no result: ' + (p.stderr[-500:] or p.stdout[-500:])}
+    return {'found': False, 'error': True, 'how': 'replay produced no result: ' + (p.stderr[-500:] or p.stdout[-500:])}
 
 
 def search(pid, failure, seed):
